@@ -127,6 +127,8 @@ class PrinterModel:
         # helper tables
         self.precedence = self._table1("precedence")
         self.required = self._table2("required")
+        self.chain_level = self._chain_table()
+        self.operand_rule = self._operand_rule()
 
     # ---- hole classification ----
     def _field_of(self, e, fields, locals_):
@@ -372,6 +374,54 @@ class PrinterModel:
                         table[(v, side)] = lv
                         break
         return table
+
+    def _chain_table(self):
+        """chain_level(core) -> Option<u8>: variants the parser nests to the right at one grammar level"""
+        fns = self.syn.find_fn("chain_level", mod="generate::ast")
+        if len(fns) != 1:
+            return {}
+        m = tail_expr(fns[0]["body"])
+        m = strip(m) if m else None
+        if m is None or m.get("k") != "match":
+            raise AnchorError("`chain_level` is no longer a single match table")
+        table = {}
+        for a in m["arms"]:
+            b = strip(a["body"])
+            lv = None
+            if b.get("k") == "call" and src(b["f"]) == "Some" and len(b["args"]) == 1:
+                lv = self._level(b["args"][0])
+                if lv is None:
+                    raise AnchorError("`chain_level`: arm does not yield Some(<integer>)")
+            elif src(b) != "None":
+                raise AnchorError(f"`chain_level`: unexpected arm body `{src(b)[:40]}`")
+            for alt in pat_alternatives(a["pat"]):
+                if alt.get("k") in ("pstruct", "ppath"):
+                    table.setdefault(alt["p"].split("::")[-1], lv)
+                elif alt.get("k") != "pwild":
+                    raise AnchorError(f"`chain_level`: unexpected pattern `{src(alt)}`")
+        return {k: v for k, v in table.items() if v is not None}
+
+    def _operand_rule(self):
+        """shape of `operand`: 'plain' = protect(child, required(parent, side)); 'chain' = same-level right operands are printed
+        bare first, then plain. Anything else leaves the fragment."""
+        fns = self.syn.find_fn("operand", mod="generate::ast")
+        if len(fns) != 1:
+            return None
+        stmts = fns[0]["body"]["stmts"]
+        tail = src(strip(stmts[-1]["e"])).replace(" ", "") if stmts and stmts[-1].get("k") == "expr" else ""
+        if tail != "protect(child,required(parent,side),ind)":
+            raise AnchorError(f"`operand` no longer ends in protect(child, required(parent, side), ind): `{tail[:80]}`")
+        if len(stmts) == 1:
+            return "plain"
+        if len(stmts) == 2 and stmts[0].get("k") == "expr" and strip(stmts[0]["e"]).get("k") == "if":
+            i = strip(stmts[0]["e"])
+            c = src(strip(i["c"])).replace(" ", "")
+            want = "(((side==Side::Right)&&chain_level(parent).is_some())&&(chain_level(parent)==chain_level(child)))"
+            then = src(i["then"]).replace(" ", "")
+            if c == want and then in ("{returnto_py(child,ind);}", "{returnto_py(child,ind)}") and not i.get("else"):
+                return "chain"
+            raise AnchorError(f"`operand`: unrecognised early return `if {c[:120]} {then[:40]}`")
+        raise AnchorError("`operand` left the analysable fragment")
 
     def arms_of(self, variant):
         return [a for a in self.arms if variant in a.variants]
